@@ -75,6 +75,12 @@ type mutationMap struct {
 	// TODO(mpl): we only need to keep track of one claim so far,
 	// but I chose a slice for when we need to do multi-claims?
 	deletes []schema.Claim
+
+	// completesPartial is set when the blob was already committed once without
+	// being fully indexed (a delete claim received before its target), and
+	// this mutation is the one that completes it. The corpus has then already
+	// seen the blob, but only its meta row.
+	completesPartial bool
 }
 
 func (mm *mutationMap) Set(k, v string) {
@@ -229,7 +235,9 @@ func (ix *Index) ReceiveBlob(ctx context.Context, blobRef blob.Ref, source io.Re
 	// always index it. This is generally only useful when working
 	// on the indexing code and retroactively indexing a subset of
 	// content without forcing a global reindexing.
+	previouslyPartial := false
 	if haveVal, haveErr := ix.s.Get("have:" + blobRef.String()); haveErr == nil {
+		previouslyPartial = !strings.HasSuffix(haveVal, "|indexed")
 		if strings.HasSuffix(haveVal, "|indexed") {
 			if allowReindex, _ := strconv.ParseBool(os.Getenv("CAMLI_REDO_INDEX_ON_RECEIVE")); allowReindex {
 				if debugEnv {
@@ -285,6 +293,7 @@ func (ix *Index) ReceiveBlob(ctx context.Context, blobRef blob.Ref, source io.Re
 		return blob.SizedRef{}, err
 	}
 
+	mm.completesPartial = previouslyPartial && strings.HasSuffix(mm.kv["have:"+blobRef.String()], "|indexed")
 	if err := ix.commit(mm); err != nil {
 		return blob.SizedRef{}, err
 	}
